@@ -13,16 +13,18 @@ ALL = ("C03", "C04", "C14", "C15", "C16")
 
 def _one_run(args):
     exe, seed, nsteps, which, kw = args
+    kw = dict(kw)
     rng = random.Random(seed)
+    hostile = kw.pop("hostile", 0.0) if isinstance(kw, dict) else 0.0
     g = srvgen.Gen(rng, exe, **kw)
-    h = g.run(nsteps)
+    h = g.run(nsteps, hostile=hostile)
     steps = h.steps
     m = srvmon.run_monitors(steps, which)
     kinds = {}
     for st in steps:
         k = st.meta.get("kind", st.op.split()[0])
         kinds[k] = kinds.get(k, 0) + 1
-    return {"seed": seed, "ops": [s.op for s in steps], "lines": [s.line for s in steps], "dead": h.dead,
+    return {"seed": seed, "ops": [s.op for s in steps], "lines": [s.line for s in steps], "dead": h.dead, "slowest": getattr(h, "slowest", 0.0),
             "viol": m.viol, "stats": m.stats, "kinds": kinds, "check_ip": g.check_ip}
 
 
@@ -95,6 +97,13 @@ def run(chk, prop, which=None, runs=None, nsteps=None, gen_kw=None, extra_monito
     # corpus first
     for f in sorted(glob.glob(os.path.join(vlib.VERIF, "corpus", prop, "*.ops"))):
         ops = [l.strip() for l in open(f) if l.strip() and not l.startswith("#")]
+        if not ops or not ops[0].startswith("cfg "):
+            # a corpus file for another harness (pure ops): a sanitizer abort there is still this property's business
+            pexe = vlib.build_harness("h_pure", ["h_pure.c"], vlib.PURE_OBJS)
+            rr = vlib.run_lines(pexe, ops)
+            if rr.rc != 0:
+                chk.violation("C harness aborted on corpus file %s (rc=%d):\n%s" % (os.path.basename(f), rr.rc, rr.stderr[-800:]), ops); bad += 1
+            continue
         steps, dead, m = replay_ops(exe, ops, which)
         if dead and prop == "C05":
             chk.violation("C harness aborted on corpus file %s: %s" % (os.path.basename(f), dead[2][-800:]), ops); bad += 1
@@ -142,6 +151,7 @@ def run(chk, prop, which=None, runs=None, nsteps=None, gen_kw=None, extra_monito
                        "NS/A/outside queries, forward replies, clock steps across 59/60/61 s; 1-20 clients, IPv4 and IPv6, check_ip on/off; "
                        "non-trivial = op that produced an answer, raw frame or tun write" % (runs, nsteps))
     chk.notes["op_kinds"] = kinds
+    chk.notes["slowest_op_seconds"] = round(max([r.get("slowest", 0.0) for r in results] or [0.0]), 3)
     chk.notes["monitor_stats"] = stats
     chk.notes["correspondence_diffs"] = None if model_missing else ndiff
     for r in results[:3]:
